@@ -21,6 +21,8 @@ func TestReplay(t *testing.T) {
 		key, msg = replayC12(t, f.Script)
 	case "TestC13":
 		key, msg = replayC13(t, f.Script)
+	case "TestC08WS":
+		key, msg = replayC08b(t, f.Script)
 	default:
 		t.Fatalf("no replay handler for %s", f.Test)
 	}
